@@ -152,7 +152,15 @@ def guessed_type_with_default(ir0, cur):
     return False
 
 
-def mechanism(fmt, style, field, x, y, exc=None, contradiction=False):
+def drifting_param_start_type(ir0, a, b):
+    """declared type (in the interface the history started from) of the first parameter that differs between two views"""
+    for (k, pa), (_, pb) in zip(a["params"], b["params"]):
+        if pa != pb:
+            return (ir0["params"].get(k) or {}).get("typ")
+    return None
+
+
+def mechanism(fmt, style, field, x, y, exc=None, contradiction=False, start_typ=None):
     """known-finding mechanism of a drift, from format / style / field / direction (value-free)"""
     gn = style in ("google", "numpydoc")
     if contradiction and fmt in ("class", "pydantic", "function") and (exc is not None or field == "param.default"):
@@ -181,9 +189,10 @@ def mechanism(fmt, style, field, x, y, exc=None, contradiction=False):
         return "sqlalchemy.parse.none-key-oscillates"
     if fmt.startswith("sqlalchemy") and field == "ir.doc" and ws_only(x, y):
         return "sqlalchemy.class-doc-whitespace-grows"
-    if fmt == "argparse" and field == "param.default" and x == ["str", irgen.NONE_STR] and y is None:
+    bare_container = irgen.base_of(start_typ or "") in ("dict", "list")  # (keyed to the types it was observed for)
+    if fmt == "argparse" and bare_container and field == "param.default" and x == ["str", irgen.NONE_STR] and y is None:
         return "argparse.none-default-dict-type-second-round"
-    if fmt == "argparse" and field == "param.typ" and isinstance(x, list) and isinstance(y, list) and \
+    if fmt == "argparse" and bare_container and field == "param.typ" and isinstance(x, list) and isinstance(y, list) and \
             x[1].startswith("Optional[") and y[1] == "Optional[str]":
         return "argparse.none-default-dict-type-second-round"
     if gn and fmt != "docstring" and fmt != "argparse" and fmt != "json_schema" and (
@@ -235,7 +244,8 @@ def run_case(ctx, P, stream, idx):
                     P.monitor("fixpoint.compared")
                     if v != prev_view:
                         field, x, y = first_diff(prev_view, v)
-                        mech = mechanism(fmt, style, field, x, y, contradiction=guessed_type_with_default(ir0, cur))
+                        mech = mechanism(fmt, style, field, x, y, contradiction=guessed_type_with_default(ir0, cur),
+                                         start_typ=drifting_param_start_type(ir0, prev_view, v))
                         P.deviation((mech + "|" if mech else "") + "fixpoint.drift.%s.%s|%s,round=%d" % (
                             field, how_of(field, x, y), feats, rnd),
                                     "round %d changed %s: %r -> %r" % (rnd, field, x, y),
